@@ -22,7 +22,7 @@ PROP = dict(
         quick="FIR real+complex: nh 1..64 (nh = 1: a one-tap filter is a gain; FirFilter and FftFilter both accept it) and {100,127,128,129,255,256,257,512,1024}; coefficient letters: every delta_j (nh<=64; ends only "
               "above), symmetric, sparse, dense (complex: rotated per tap); input lengths 0..3*block+2 (nh<=16), else {0,1,block-1,block,"
               "block+1,2*block,3*block+1,20000} (the 20000 length only with end taps/sym/sparse/dense); inputs: all impulse positions "
-              "(nh<=16) or 8 boundary positions, LCG, 1e+-100; FirFilter multi-call (real+complex, dense coefficients, one object from rest): nh in {1,2,3,4,5,8,16,17,31,32,33,64,100,257}, streams {LCG, impulse at 0, impulse at nh}, all sequences of 3 calls with frame lengths in {0,1,2,nh-1,nh,nh+1,30,64} (<= 512) plus 3 longer alternating sequences: every call returns len samples equal to the defining sum over the stream fed so far (direct-form tolerance); FftFilter multi-call (real+complex, dense coefficients, from rest): every nh 1..64 and the 9 large nh, streams {LCG, impulse at 0, impulse at block}, all 216 sequences of 3 calls with lengths in {1,block-1,block,block+1,2block,2block+3} plus [r,block,block,2block-r] for r 1..min(block-1,8): after each call floor(fed/block_size)*block_size samples emitted, all equal to the defining sum (FFT tolerance) and to FirFilter on the concatenated input; RETUNING (check 'firfilter.retune'): FirFilterR/FirFilterC with nh in {1,2,3,5,8,16,33}; (h0,h1) in {zeros->dense, dense->zeros, leading-zero->dense, trailing-zero->dense, dense->leading/trailing-zero, dense<->sparse, end tap->other end (both ways), dense->dense*2^-60, dense*2^200->dense}; h1 installed through the non-const coeffs() by whole-array assignment and by element-wise writes, (a) before any processing, (b) mid-stream after 2 frames with h0, (c) h0 installed back; streams LCG and impulse at 0; every output against the sum of the taps in force over the true input history; coeffs() const read-back; SCALE INVARIANCE (check 'scale'): FirFilter::process, FirFilter::conv, FftFilter::process (real+complex, nh in {1,2,3,8,17,64,129}, input 3*block+1 LCG samples), xcorr(a,b) for 5 length pairs up to (100,129)/(300,7), xcorr(a) n in {5,16,33,129,300}, MAFilter n in {1,2,7,16,64,129}; first operand letters dense, sparse, nearly symmetric (symmetric + 1e-3 antisymmetric), single tap at either end; operands scaled by 2^ec, 2^ex with ec, ex in {0,-60,-200,-600,+200} (all 24 combinations whose product stays within 2^-850..2^800; xcorr also 2^+-600 against 2^-+600 and 2^400 against 2^-600): output scaled back must meet the unit-scale a-priori bound and, for |ec+ex| <= 700, equal the unit-scale output times 2^(ec+ex) bit for bit; BIG SIZES (both tiers): FirFilter and FftFilter, real+complex, dense coefficients with nh = 33, 4097 and 5000 taps on ONE frame of 70000 samples (dense LCG input and an impulse at input index 65536; FFT length up to 16384, 6 blocks); FirFilter<T>::conv with operands 70000x9, 9999x5000 and 4097x4097 (every output against the direct sum); xcorr dense letters for (70000,9), (9,70000), (5000,5000), (65536,2), (65537,1) (every lag against the direct sum), auto-correlation n=5000; MAFilter n in {7,100,1000,4097} over 70000 samples (LCG and 1e+100-burst letters); xcorr all (n1,n2) in 1..16^2 x all impulse pairs + dense, 12 large pairs "
+              "(nh<=16) or 8 boundary positions, LCG, 1e+-100; FirFilter multi-call (real+complex, dense coefficients, one object from rest): nh in {1,2,3,4,5,8,16,17,31,32,33,64,100,257}, streams {LCG, impulse at 0, impulse at nh}, all sequences of 3 calls with frame lengths in {0,1,2,nh-1,nh,nh+1,30,64} (<= 512) plus 3 longer alternating sequences: every call returns len samples equal to the defining sum over the stream fed so far (direct-form tolerance); FftFilter multi-call (real+complex, dense coefficients, from rest): every nh 1..64 and the 9 large nh, streams {LCG, impulse at 0, impulse at block}, all 216 sequences of 3 calls with lengths in {1,block-1,block,block+1,2block,2block+3} plus [r,block,block,2block-r] for r 1..min(block-1,8): after each call floor(fed/block_size)*block_size samples emitted, all equal to the defining sum (FFT tolerance) and to FirFilter on the concatenated input; LARGE DYNAMIC RANGE (check 'fir.burst'): direct FirFilter::process and FirFilter::conv, real+complex, dense taps, nh in {256,257,512}, ONE call of 16nh, 18nh+5, 20nh samples of unit noise with a single sample of 1e8 / 1e12, or three samples of 1e100 in 1e-100 noise, at positions nh/2, 5nh+3, len-2nh: every output within the PER-SAMPLE bound (nh+8)*eps*sum_k|c[k]||x[i-k]|; RETUNING (check 'firfilter.retune'): FirFilterR/FirFilterC with nh in {1,2,3,5,8,16,33}; (h0,h1) in {zeros->dense, dense->zeros, leading-zero->dense, trailing-zero->dense, dense->leading/trailing-zero, dense<->sparse, end tap->other end (both ways), dense->dense*2^-60, dense*2^200->dense}; h1 installed through the non-const coeffs() by whole-array assignment and by element-wise writes, (a) before any processing, (b) mid-stream after 2 frames with h0, (c) h0 installed back; streams LCG and impulse at 0; every output against the sum of the taps in force over the true input history; coeffs() const read-back; SCALE INVARIANCE (check 'scale'): FirFilter::process, FirFilter::conv, FftFilter::process (real+complex, nh in {1,2,3,8,17,64,129}, input 3*block+1 LCG samples), xcorr(a,b) for 5 length pairs up to (100,129)/(300,7), xcorr(a) n in {5,16,33,129,300}, MAFilter n in {1,2,7,16,64,129}; first operand letters dense, sparse, nearly symmetric (symmetric + 1e-3 antisymmetric), single tap at either end; operands scaled by 2^ec, 2^ex with ec, ex in {0,-60,-200,-600,+200} (all 24 combinations whose product stays within 2^-850..2^800; xcorr also 2^+-600 against 2^-+600 and 2^400 against 2^-600): output scaled back must meet the unit-scale a-priori bound and, for |ec+ex| <= 700, equal the unit-scale output times 2^(ec+ex) bit for bit; BIG SIZES (both tiers): FirFilter and FftFilter, real+complex, dense coefficients with nh = 33, 4097 and 5000 taps on ONE frame of 70000 samples (dense LCG input and an impulse at input index 65536; FFT length up to 16384, 6 blocks); FirFilter<T>::conv with operands 70000x9, 9999x5000 and 4097x4097 (every output against the direct sum); xcorr dense letters for (70000,9), (9,70000), (5000,5000), (65536,2), (65537,1) (every lag against the direct sum), auto-correlation n=5000; MAFilter n in {7,100,1000,4097} over 70000 samples (LCG and 1e+100-burst letters); xcorr all (n1,n2) in 1..16^2 x all impulse pairs + dense, 12 large pairs "
               "up to (70000,9), auto-correlation n 1..16 + 6 large; MAFilter n 1..64,100,1000, lengths 0..3n+2 (n<=16) or 8 boundary lengths up to 5n+3, real and complex, array and scalar "
               "overload, letters impulse, LCG, constant, 1e+-100 alternating, 1e+100 burst followed by 1e-100",
         thorough="FIR real+complex: every nh 1..128 with every delta_j plus {129,255,256,257,512,1024,2048} (end taps), symmetric, sparse, dense; every "
@@ -39,6 +39,7 @@ PROP = dict(
         "scale invariance: power-of-two scaling of an operand commutes with every rounding of a threshold-free linear computation, so bit-identical scaled outputs are demanded in addition to the (scale-free) rounding bound; this is sharper than the statement and is kept because the unchanged tree satisfies it at every entry point (an absolute threshold, floor or flush inside the computation breaks it)",
         "taps written through the public non-const FirFilter::coeffs() (same length) are coefficient vectors in the sense of the statement; after a mid-stream change the output is the sum of the new taps over the true past input (the delay line of the unchanged tree stores input samples); FftFilter has no setter",
         "nh = 1 is in scope ('for every coefficient vector'): FirFilter with one tap threw from process() on the pinned tree (fixed: /repo 350d4c0, fixes/C07-firfilter-single-tap.patch); FftFilter(h) with one tap works (fft length 2, block 2) and is checked like any other nh",
+        "the statement holds the direct filter ('FirFilter ... to rounding accuracy for every coefficient vector and input', 'large-dynamic-range content') to a bound on each sample's own terms: in check fir.burst |err_i| <= (nh+8)*eps*sum_k|c[k]||x[i-k]| alone (met by every double dot product in any order); FftFilter keeps its block-level bound 64*log2(N)*eps*|c|2*|x|2",
         "real filters are fed real inputs and complex filters complex inputs (mixed FftFilter overloads are not claimed by the statement)",
         "one process() call from rest per FIR case; FirFilter (changing frame lengths) and FftFilter additionally over short call sequences (pending samples, aligned/unaligned frames); general framing invariance is property C06",
         "'in multiples of its block size' is read with the size FftFilter::block_size() reports (output length floor(len/bs)*bs); the "
